@@ -1,6 +1,8 @@
 package c21
 
 import (
+	"strconv"
+	"os"
 	"context"
 	"fmt"
 	"strings"
@@ -84,8 +86,14 @@ func TestC21(t *testing.T) {
 	run := evid.Start("C21", "model_checking")
 	agg := mc.NewAgg(run)
 	bound := 1
+	if b := os.Getenv("VERIF_BOUND"); b != "" {
+		bound, _ = strconv.Atoi(b)
+	}
 	scens := []scen{{"one-message", "", 1}, {"cancel-send", "cancel-send", 1}, {"break-b", "break-b", 1}, {"reattach-b", "reattach-b", 1},
 		{"cancel-first-then-send-second", "cancel-first-send", 2}}
+	if only := os.Getenv("VERIF_ONLY"); only != "" {
+		scens = nil // VERIF_ONLY=s2: skip the end-to-end part (development aid)
+	}
 	if !run.Quick() {
 		bound = 2
 		scens = append(scens, scen{"two-messages", "", 2}, scen{"break-a", "break-a", 1}, scen{"two-messages-break-b", "break-b", 2})
@@ -108,13 +116,19 @@ func TestC21(t *testing.T) {
 		name      string
 		defers    int
 		quiescent bool // the caller cancels once everything else has come to rest (instead of at an arbitrary early point)
-	}{{"late-ack-after-cancelled-send", 1, false}, {"late-ack-after-send-cancelled-at-rest", 1, true}}
+		holdAfter int  // >= 0: the partner takes only that many messages; later ones are never received nor acked
+		onAck     bool // the caller cancels at an arbitrary point AFTER the relay pushed the first message's ack
+	}{{"late-ack-after-cancelled-send", 1, false, -1, false}, {"late-ack-after-send-cancelled-at-rest", 1, true, -1, false},
+		// the first send is cancelled around the time its ack arrives; the partner never takes the second message
+		{"cancelled-send-then-send-to-partner-that-stopped-receiving", 0, false, 1, false},
+		{"send-cancelled-as-its-ack-arrives-then-send-to-partner-that-stopped-receiving", 0, false, 1, true}}
 	mc.RunScenarios(t, agg, len(s2), func(i int) *vsync.Config {
 		sc := s2[i]
 		return &vsync.Config{Name: "client-s2/" + sc.name, Bound: bound, Delay: true, Deadline: run.Deadline(), MaxStep: 20000, Horizon: 2 * time.Minute,
 			Body: func() {
 				s := sigh.NewS2(0, 0)
 				s.Relay.DeferAcks = sc.defers
+				s.Relay.HoldAfter = sc.holdAfter
 				ctx1, cancel1 := context.WithCancel(s.Ctx)
 				var wg vsync.WaitGroup
 				wg.Add(2)
@@ -129,8 +143,21 @@ func TestC21(t *testing.T) {
 						}
 					}
 				})
+				ackCh := make(chan struct{})
+				acked := false
+				if sc.onAck {
+					s.Relay.OnAck = func(n uint64) {
+						if !acked {
+							acked = true
+							close(vsync.C(ackCh))
+						}
+					}
+				}
 				vsync.GoNamed("canceller", func() {
 					defer wg.Done()
+					if sc.onAck {
+						<-vsync.R(ackCh)
+					}
 					if sc.quiescent {
 						vsync.Quiesce()
 					} else {
@@ -142,6 +169,10 @@ func TestC21(t *testing.T) {
 				time.Sleep(30 * time.Second)
 				vsync.Quiesce()
 				cancel1()
+				if sc.onAck && !acked {
+					acked = true
+					close(vsync.C(ackCh)) // no ack was ever pushed: release the canceller
+				}
 				s.Shutdown()
 				wg.Wait()
 			},
@@ -256,6 +287,7 @@ func TestC21(t *testing.T) {
 	s1 := []sigh.Scen{
 		{"bogus-acks", [][]string{{"attach:a1:A:B", "wait", "send:a1:m1"}, {"attach:b1:B:A", "wait", "acke:b1:7:2", "cleare:b1:7:2"}}},
 		{"ack-then-next", [][]string{{"attach:a1:A:B", "wait", "send:a1:m1", "wait", "send:a1:m2"}, {"attach:b1:B:A", "wait", "ack:b1:last"}}},
+		{"acks-racing-with-sends", [][]string{{"!setup", "attach:a1:A:B", "attach:b1:B:A", "wait"}, {"send:a1:m1", "clear:a1:1", "send:a1:m2"}, {"ack:b1:last", "acke:b1:1:2", "ack:b1:last"}}},
 		{"sender-clears", [][]string{{"attach:a1:A:B", "wait", "send:a1:m1", "clear:a1:1", "send:a1:m2"}, {"attach:b1:B:A"}}},
 	}
 	if !run.Quick() {
